@@ -7,6 +7,7 @@ Stub: transport, DNS, TLS, clock; origin servers serving a generated site graph.
 """
 import asyncio
 import contextvars
+import fnmatch
 import os
 import re
 import shutil
@@ -693,6 +694,10 @@ def gen_c02(tape, tier):
         opts['reject'] = ['css', 'png']          # -R with a comma separated list
     elif ka == 4:
         opts['reject'] = ['p*.html', 'png']      # patterns
+    elif ka == 5:
+        opts['reject'] = ['i[0-9].pn[a-z]']      # one pattern with character classes (whole-name match)
+    elif ka == 6:
+        opts['reject'] = ['[a-z][0-9].htm[k-m]', 'c[0-9].cs[r-t]']
     opts['strong_redirects'] = not tape.chance(1, 4, 'opt.nostrong')
     opts['tries'] = tape.choice((20, 1, 2, 3), 'opt.tries')
     nhosts = tape.choice((2, 3, 1), 'site.nhosts')
@@ -895,7 +900,8 @@ def offered_probes(r, site, starts, opts):
                 r.probes['offered_regex_rejected'] += 1
             if opts.get('exclude_directories') and any(d.path.startswith(x + '/') for x in opts['exclude_directories']):
                 r.probes['offered_excluded_dir'] += 1
-            if opts.get('reject') and any(d.path.endswith(x) for x in opts['reject'] if '*' not in x):
+            if opts.get('reject') and (any(d.path.endswith(x) for x in opts['reject'] if not any(c in x for c in '*?[')) or
+                                       any(fnmatch.fnmatchcase(d.path.rsplit('/', 1)[-1], x) for x in opts['reject'] if any(c in x for c in '*?['))):
                 r.probes['offered_rejected_suffix'] += 1
         if res.kind == 'redirect' and res.redirect_to.origin.host != res.origin.host:
             r.probes['cross_host_redirect'] += 1
